@@ -886,7 +886,13 @@ class SR:
         return self._cmp(o, lambda a, b: a >= b)
 
     def _known_nonzero(self, o):
-        return self.c is None and CTX is not None and CTX.nonzero_ids and _zero_const(o) and self.t.get_id() in CTX.nonzero_ids
+        if not (self.c is None and CTX is not None and CTX.nonzero_ids and _zero_const(o)):
+            return False
+        if self.pf is not None and self.pf[0] != 0 and self.pf[1]:
+            # a pure product / quotient of factors each asserted non-zero is non-zero (tl.prod of column norms == 0)
+            if all(f[0] in CTX.nonzero_ids for f in self.pf[1]):
+                return True
+        return self.t.get_id() in CTX.nonzero_ids
 
     def __eq__(self, o):
         if self._known_nonzero(o):
